@@ -119,6 +119,16 @@ Definition qi_sub {L R Bk L2 R2 B2} (body : QI L2 R2 B2 R2) (init : L -> L2) (fi
   | QIExc _ lh _ => QIFault Unreachable (fin lh l)
   end.
 
+Definition qi_sub_catch {L R Bk L2 R2 B2} (body : QI L2 R2 B2 R2) (init : L -> L2) (fin : L2 -> L -> L)
+  : QI L R Bk (rval R2) := fun l s =>
+  match qi_fun body (init l) s with
+  | QIDone n lh s' => QIDone (RComplete n) (fin lh l) s'
+  | QIPart lh => QIDone RPartial (fin lh l) s
+  | QIFail e lh => QIDone (RErr e) (fin lh l) s
+  | QIFault f lh => QIFault f (fin lh l)
+  | QIExc _ lh _ => QIFault Unreachable (fin lh l)
+  end.
+
 (* ---------------------------------------------------------------- the primitive operations, address level *)
 Section Prims.
 Variable m : pmem.
@@ -212,7 +222,9 @@ with bI : forall L R Bk A : Type, I L R Bk A -> Type :=
 | bI_loop L R Bk f lbl body : bI L R Bk unit body -> bI L R Bk Bk (iloop f lbl body)
 | bI_fun L R Bk body : bI L R Bk R body -> bI L R Bk R (ifun body)
 | bI_sub L R Bk L2 R2 B2 (body : I L2 R2 B2 R2) (init : L -> L2) (fin : L2 -> L -> L) :
-    bI L2 R2 B2 R2 body -> bI L R Bk R2 (isub body init fin).
+    bI L2 R2 B2 R2 body -> bI L R Bk R2 (isub body init fin)
+| bI_sub_catch L R Bk L2 R2 B2 (body : I L2 R2 B2 R2) (init : L -> L2) (fin : L2 -> L -> L) :
+    bI L2 R2 B2 R2 body -> bI L R Bk (rval R2) (isub_catch body init fin).
 
 (* ---------------------------------------------------------------- the address-level program of a tree *)
 Fixpoint cP {A} {p : P A} (d : bP A p) : QP A :=
@@ -257,6 +269,7 @@ with cI {L R Bk A} {p : I L R Bk A} (d : bI L R Bk A p) : QI L R Bk A :=
   | bI_loop _ _ _ f lbl _ d1 => qi_loop f lbl (cI d1)
   | bI_fun _ _ _ _ d1 => qi_fun (cI d1)
   | bI_sub _ _ _ _ _ _ _ init fin d1 => qi_sub (cI d1) init fin
+  | bI_sub_catch _ _ _ _ _ _ _ init fin d1 => qi_sub_catch (cI d1) init fin
   end.
 
 (* ---------------------------------------------------------------- the primitives simulate (TieIter.v) *)
@@ -412,6 +425,18 @@ Proof.
   - destruct T as [-> Hc']. eauto.
 Qed.
 
+Lemma simI_sub_catch L R Bk L2 R2 B2 (q : QI L2 R2 B2 R2) (p : I L2 R2 B2 R2) (init : L -> L2) (fin : L2 -> L -> L) :
+  simI q p -> simI (L:=L) (R:=R) (Bk:=Bk) (qi_sub_catch q init fin) (isub_catch p init fin).
+Proof.
+  intros H l c Hc. pose proof (simI_fun _ _ _ _ _ H (init l) c Hc) as T. unfold isub_catch, qi_sub_catch.
+  destruct (ifun p (init l) c) as [a l' c'|l'|e l'|f1 l'|x l' c'].
+  - destruct T as [-> Hc']. split; [reflexivity|exact Hc'].
+  - rewrite T. split; [reflexivity|exact Hc].
+  - rewrite T. split; [reflexivity|exact Hc].
+  - destruct T as [f0 ->]. eauto.
+  - destruct T as [-> Hc']. eauto.
+Qed.
+
 (* ---------------------------------------------------------------- soundness of the lifting *)
 Scheme bP_mut := Induction for bP Sort Prop
   with bI_mut := Induction for bI Sort Prop.
@@ -458,6 +483,7 @@ Proof.
   - apply simI_loop. assumption.
   - apply simI_fun. assumption.
   - apply simI_sub. assumption.
+  - apply simI_sub_catch. assumption.
 Qed.
 
 End Lift.
